@@ -26,7 +26,7 @@ def run_seed(d):
             return sid, meta, [("-", "patch does not apply: " + (p.stdout + p.stderr).strip()[:200], 3)]
         rows = []
         for prop in meta["breaks"]:
-            env = dict(os.environ, VERIF_REPO=work + "/repo", VERIF_BUILD=work + "/build", VERIF_OUT=work + "/out",
+            env = dict(os.environ, VERIF_CACHE="1", VERIF_REPO=work + "/repo", VERIF_BUILD=work + "/build", VERIF_OUT=work + "/out",
                        VERIF_FFI_TARGET=work + "/ffi-target")
             q = subprocess.run([os.path.join(VERIF, "check"), prop, "quick"], capture_output=True, text=True, env=env)
             lines = [l for l in (q.stdout + q.stderr).split("\n") if l.strip()]
